@@ -103,38 +103,94 @@ def absent(name, pattern, files=None):
                 detail=['%s:%d in fn %s: %s' % o for o in occ], sample=[])
 
 
+_GENERIC = {'new', 'get', 'set', 'insert', 'remove', 'clone', 'drop', 'default', 'fmt', 'push', 'pop', 'len', 'is_empty', 'borrow', 'borrow_mut', 'iter', 'next'}
+
+
+def body_with_helpers(file_text, loc, fn_name, depth=1):
+    """The body of a function with the bodies of the same-file helpers it calls as `self.h(..)`, `Self::h(..)` or
+    `h(..)` spliced in right after each call (depth levels).  Used only as a fallback when a pinned statement is
+    not found in the function itself: moving statements into a private helper called from the same place is not a
+    semantic change."""
+    m_all = mask(file_text)
+    fns = {}
+    for (name, s, bo, bc) in all_fns(file_text, m_all):
+        fns.setdefault(name, []).append((bo, bc))
+    body = file_text[loc['body_open']:loc['body_close'] + 1]
+
+    def splice(body, seen, d):
+        if d == 0:
+            return body
+        bm = mask(body)
+        out, last = [], 0
+        for mo in re.finditer(r'(?:\bself\s*\.\s*|\bSelf\s*::\s*|(?<![\w.:]))(\w+)\s*\(', bm):
+            name = mo.group(1)
+            if name in seen or name in _GENERIC or name not in fns or len(fns[name]) != 1:
+                continue
+            close = rsrc.match_close(bm, mo.end() - 1, '(', ')')
+            bo, bc = fns[name][0]
+            helper = splice(file_text[bo:bc + 1], seen | {name}, d - 1)
+            out.append(body[last:close + 1])
+            out.append(' /*helper %s*/ %s ' % (name, helper))
+            last = close + 1
+        out.append(body[last:])
+        return ''.join(out)
+    return splice(body, {fn_name}, depth)
+
+
+def _scan_order(m, patterns):
+    pos, found = 0, []
+    for p in patterns:
+        mo = re.search(p, m[pos:])
+        if not mo:
+            return found, p
+        found.append((p, pos + mo.start()))
+        pos += mo.end()
+    return found, None
+
+
 def in_order(name, file, fn, patterns, impl=None, strict=True):
-    """Obligation: inside fn, the patterns occur, each first occurrence after the previous one's."""
+    """Obligation: inside fn (falling back to fn with its same-file helpers spliced in), the patterns occur, each
+    first occurrence after the previous one's.
+      all found in order                          -> holds
+      all present, but not in this order          -> VIOLATION (statements reordered)
+      one no longer occurs, nor in the helpers    -> VIOLATION (statement removed) if strict, else undecided"""
     text = read_repo(file)
     try:
         loc = rsrc.find_fn(text, fn, impl)
     except AnchorLost as e:
         return dict(name=name, kind='frame/order', ok=None, hits=0, detail=['anchor lost: %s' % e], sample=[])
-    body = text[loc['body_open']:loc['body_close'] + 1]
-    m = mask(body)
-    # every pattern must still be there (else the anchor is lost: undecided, not an alarm) ...
-    missing = [p for p in patterns if not re.search(p, m)]
-    if missing:
-        return dict(name=name, kind='frame/order', ok=(False if strict else None), hits=0,
-                    detail=['anchor lost in %s::%s: `%s` no longer occurs' % (file, fn, missing[0])], sample=[])
-    # ... and in this order (else the obligation is violated)
-    pos = 0
-    found = []
-    for p in patterns:
-        mo = re.search(p, m[pos:])
-        if not mo:
-            return dict(name=name, kind='frame/order', ok=False, hits=len(found),
-                        detail=['in %s::%s: `%s` does not occur after %s' % (file, fn, p, found[-1] if found else 'the start')], sample=found)
-        found.append('%s@%d' % (p, rsrc.line_of(text, loc['body_open'] + pos + mo.start())))
-        pos += mo.end()
-    return dict(name=name, kind='frame/order', ok=True, hits=len(found), detail=[], sample=found)
+    tried = []
+    for depth in (0, 1, 2):
+        body = text[loc['body_open']:loc['body_close'] + 1] if depth == 0 else body_with_helpers(text, loc, fn, depth)
+        m = mask(body)
+        missing = [p for p in patterns if not re.search(p, m)]
+        if missing:
+            tried.append('depth %d: `%s` does not occur' % (depth, missing[0]))
+            continue
+        found, failed = _scan_order(m, patterns)
+        if failed is None:
+            return dict(name=name, kind='frame/order', ok=True, hits=len(found), detail=[],
+                        sample=['%s' % p for (p, o) in found] + (['(with helpers, depth %d)' % depth] if depth else []))
+        return dict(name=name, kind='frame/order', ok=False, hits=len(found),
+                    detail=['in %s::%s: `%s` does not occur after `%s`' % (file, fn, failed, found[-1][0] if found else 'the start')],
+                    sample=[p for (p, o) in found])
+    return dict(name=name, kind='frame/order', ok=(False if strict else None), hits=0,
+                detail=['in %s::%s and the helpers it calls: %s' % (file, fn, '; '.join(tried))], sample=[])
 
 
 def each_guarded(name, pattern, guards, files=None, window=12, min_hits=1):
     """Obligation: every occurrence of `pattern` (a call site) is preceded, within `window` lines of the same fn,
-    by one of the regexes in `guards` (a test or an assertion)."""
+    by one of the regexes in `guards` (a test or an assertion) - or lies in a helper function every call site of
+    which is so preceded (one level)."""
     bad, n = [], 0
-    for rel in (files or src_files()):
+    files = files or src_files()
+
+    def guarded_at(lines_m, ln):
+        lo = max(0, ln - 1 - window)
+        ctx = '\n'.join(lines_m[lo:ln])
+        return any(re.search(g, ctx) for g in guards)
+
+    for rel in files:
         text = read_repo(rel)
         m = mask(text)
         fns = all_fns(text, m)
@@ -143,10 +199,23 @@ def each_guarded(name, pattern, guards, files=None, window=12, min_hits=1):
             n += 1
             ln = rsrc.line_of(text, mo.start())
             fn = enclosing_fn(fns, mo.start())
-            lo = max(0, ln - 1 - window)
-            ctx = '\n'.join(lines_m[lo:ln])
-            if not any(re.search(g, ctx) for g in guards):
-                bad.append('%s:%d in fn %s: call not preceded by a guard within %d lines' % (rel, ln, fn, window))
+            if guarded_at(lines_m, ln):
+                continue
+            # one level up: the enclosing helper's call sites
+            sites = []
+            if fn and fn not in _GENERIC:
+                for rel2 in files:
+                    t2 = read_repo(rel2)
+                    m2 = mask(t2)
+                    l2 = m2.split('\n')
+                    for c in re.finditer(r'(?<!fn )\b%s\s*\(' % re.escape(fn), m2):
+                        cl = rsrc.line_of(t2, c.start())
+                        if re.search(r'\bfn\s+%s\b' % re.escape(fn), l2[cl - 1]):
+                            continue
+                        sites.append(guarded_at(l2, cl))
+            if sites and all(sites):
+                continue
+            bad.append('%s:%d in fn %s: call not preceded by a guard within %d lines (nor are all call sites of %s)' % (rel, ln, fn, window, fn))
     ok = not bad and n >= min_hits
     return dict(name=name, kind='frame/guarded', ok=ok, hits=n, detail=bad or ([] if n >= min_hits else ['no call site found']), sample=[])
 
